@@ -53,7 +53,8 @@ def struct_fields(src, name):
 
 
 class Layout:
-    def __init__(self, repo):
+    def __init__(self, repo, strict=True):
+        self.expected_repr = True
         st = open(os.path.join(repo, 'core/src/storage.rs')).read()
         im = open(os.path.join(repo, 'core/src/inmemory.rs')).read()
         self.client = [f for f, _ in struct_fields(st, 'Client')]
@@ -73,7 +74,11 @@ class Layout:
         exp = {'clients': r'HashMap<Uuid,Client>', 'snapshots': r'HashMap<Uuid,Vec<u8>>', 'versions': r'HashMap<\(Uuid,Uuid\),Version>', 'children': r'HashMap<\(Uuid,Uuid\),Uuid>'}
         for k, e in exp.items():
             if not re.match('^' + e + '$', tys[k].replace(' ', '')):
-                raise Unsupported('type of Inner.%s changed: %s' % (k, tys[k]))
+                # another representation of the state: the step mode (which assumes INV over THIS
+                # representation) does not apply; the history mode (ihist.py) still does
+                self.expected_repr = False
+                if strict:
+                    raise Unsupported('type of Inner.%s changed: %s' % (k, tys[k]))
         self.inner = names
 
     def mk(self, kind, **kw):
